@@ -147,6 +147,8 @@ func genC18(t *rapid.T, tier string) (*World, any) {
 			{"", "empty/x/y", ""}, {"", "empty", ""}, {"empty", "..", ""},
 			{"crs/rules", "", "crs/rules"}, {"crs/util/a/b", "", "crs/util/a/b"}, // without -d the working directory itself is the root
 			{"", "crs/util/a/nested/regex-assembly", "crs/util/a/nested"},
+			{"", "crs/", "crs"}, {"", "crs/rules/", "crs"}, {"", "crs/./rules/../util", "crs"}, {"crs", "rules/REQUEST-942-APPLICATION-ATTACK-SQLI.conf", "crs"},
+			{"", "crs/regex-assembly/942110.ra", "crs"}, {"", "crs/util/a/nested/", "crs/util/a/nested"},
 		}
 		pl := pick(t, places, "place")
 		p.Cwd, p.Dir, p.Root = pl.cwd, pl.dir, pl.root
@@ -428,7 +430,7 @@ func sortStrings(s []string) {
 func init() {
 	register(&Property{
 		ID: "C18", Level: "exploration",
-		Rule: "scenario in one of four modes. arg: argument strings built from 8 id shapes x 16 chain numbers (0, 1, 2, 3, 7, 255, 256, 300, 2^64, 10^20, leading zeros, signs, fractions, letters, empty) x 18 surface shapes (.ra, .ra.ra, trailing / leading junk, upper case, blanks, doubled -chain, ./) for generate / update / compare / format, with the literally named file present; oracle: accepted iff inside the statement's grammar with K <= 255, the file read (I/O trace) is regex-assembly/NNNNNN[-chainK].ra, update rewrites exactly the K-th chained rule's operand (disk vs structure), rejected implies exit != 0 and no write. stdin: generate ARG vs generate - with the same bytes (LF / CRLF / no final newline). root: 21 combinations of cwd and -d (absolute or relative; at, below, beside a root; nested roots; no root at all; no -d) - the root observed through the trace must be the nearest ancestor-or-self of -d holding regex-assembly, or exactly cwd without -d; nothing outside it is read or written. all: --all over 1-5 file names drawn from in-grammar, K > 255 and near-miss names - in-grammar names address exactly their lines, near misses are skipped, K > 255 fails. Each run under a seeded schedule. Distinct = distinct parameter sets.",
+		Rule: "scenario in one of four modes. arg: argument strings built from 8 id shapes x 16 chain numbers (0, 1, 2, 3, 7, 255, 256, 300, 2^64, 10^20, leading zeros, signs, fractions, letters, empty) x 18 surface shapes (.ra, .ra.ra, trailing / leading junk, upper case, blanks, doubled -chain, ./) for generate / update / compare / format, with the literally named file present; oracle: accepted iff inside the statement's grammar with K <= 255, the file read (I/O trace) is regex-assembly/NNNNNN[-chainK].ra, update rewrites exactly the K-th chained rule's operand (disk vs structure), rejected implies exit != 0 and no write. stdin: generate ARG vs generate - with the same bytes (LF / CRLF / no final newline). root: 27 combinations of cwd and -d (also trailing slashes, unclean paths, -d naming a file) (absolute or relative; at, below, beside a root; nested roots; no root at all; no -d) - the root observed through the trace must be the nearest ancestor-or-self of -d holding regex-assembly, or exactly cwd without -d; nothing outside it is read or written. all: --all over 1-5 file names drawn from in-grammar, K > 255 and near-miss names - in-grammar names address exactly their lines, near misses are skipped, K > 255 fails. Each run under a seeded schedule. Distinct = distinct parameter sets.",
 		Gen:  genC18, Eval: evalC18,
 		QuickChecks: 3000, ThoroughChecks: 40000, Timeout: 20 * time.Second,
 		Assumptions: []string{
